@@ -124,6 +124,8 @@ def _sort_key_kind(lib, fi, sort_term, sorted_vec):
                     good = False
             if good:
                 return "chars", "sort_by_key(|(chars, _)| Reverse(chars)) over pairs pushed as (test_case.chars().count(), literal of the zipped cluster)"
+        if counts:
+            return "undecided", "items are ordered by their first component; a char count of the test cases is computed in the chain, but how it reaches that component is not recognised"
         return None, "items are ordered by their first component, which is not the char count of the test case"
     return None, "sort key is %s, expected Reverse(len(option)) or Reverse(char count)" % local.show(kr)
 
@@ -164,7 +166,10 @@ def alt1(ctx, lib):
                     continue
                 kind, why = _sort_key_kind(lib, fi, t, tgt)
                 ok = kind is not None
-            if ok:
+            if ok and kind == "undecided":
+                kinds[(path, bi)] = kind
+                ctx.undecided("ALT-1", path, why, b.loc(s.get("line")))
+            elif ok:
                 kinds[(path, bi)] = kind
                 ctx.ok("ALT-1", path, {"mechanism": why, "ordered_by": kind}, b.loc(s.get("line")))
             else:
@@ -215,6 +220,8 @@ def alt2(ctx, lib, alt):
                 ctx.ok(rid, "%s:%s#bb%d" % (E.path, what.rsplit("::", 1)[-1], bi), {"self_checked_afterwards": True}, E.loc(line))
             elif kind == "chars":
                 ctx.ok(rid, "%s:%s#bb%d" % (E.path, what.rsplit("::", 1)[-1], bi), {"self_checked_afterwards": False, "ordered_by": "chars matched"}, E.loc(line))
+            elif kind == "undecided":
+                ctx.undecided(rid, "%s:%s" % (E.path, what.rsplit("::", 1)[-1]), "the sort key of the unchecked alternation could not be traced (see ALT-1)", E.loc(line))
             else:
                 ctx.violation(rid, (E.path, "unchecked alternation ordered by " + (kind or "?")),
                               "the last-resort alternation built by %s is ordered by %s and is not self-checked afterwards: a converted repetition counts as one grapheme, "
@@ -585,6 +592,42 @@ def zip1(ctx, lib):
                 ret = local.peel(pd.local(0))
                 if ret[0] == "multi":
                     unknowns.append("the producer %s returns one of several vectors" % P.path)
+                elif ret[0] == "call" and re.search(r"Vec::<T>::(?:new|with_capacity)$", ret[1]) and len(ret) > 3:
+                    # loop form: an empty vector filled by exactly one unconditional push per iteration of a loop over the test cases
+                    pfi = guards.FnInfo.of(P)
+                    loops = pfi.cfg.natural_loops()
+                    is_ret = lambda x: x[0] == "call" and x[1] == ret[1] and x[3] == ret[3]
+                    pushes = []
+                    for bj, t2 in P.calls():
+                        n2 = callee_name(t2) or ""
+                        if not t2["args"]:
+                            continue
+                        cur = local.peel(pd.operand(t2["args"][0]))
+                        while cur[0] == "call" and cur[1].endswith(("::deref", "::deref_mut")) and cur[2]:
+                            cur = local.peel(cur[2][0])
+                        if not is_ret(cur):
+                            continue
+                        m2 = n2.split("::")[-1]
+                        if m2 == "push":
+                            pushes.append((bj, t2))
+                        elif m2 in _RESHAPING_METHODS:
+                            problems.append("in the producer %s the cluster vector is reshaped by %s()" % (P.path, m2))
+                        elif m2 not in _HARMLESS_METHODS and "deref_mut" in local.show(pd.operand(t2["args"][0])):
+                            unknowns.append("in the producer %s the cluster vector is changed by %s()" % (P.path, m2))
+                    if len(pushes) != 1:
+                        unknowns.append("the producer %s fills the cluster vector by %d push sites" % (P.path, len(pushes)))
+                    else:
+                        bj, t2 = pushes[0]
+                        inl = [h for h, body_ in loops.items() if bj in body_]
+                        gs = [g for g in guards.guards(P, bj) if not g["loop"]]
+                        heads = [g for g in guards.guards(P, bj) if g["loop"]]
+                        over_param = any(any(y[0] == "param" for y in local.walk(g["origin"])) and not any(
+                            y[0] == "call" and any(y[1].endswith(a_) for a_ in _RESHAPING_ADAPTORS) for y in local.walk(g["origin"])) for g in heads)
+                        if len(inl) != 1 or not over_param:
+                            unknowns.append("the push in %s is not inside exactly one loop over the test cases" % P.path)
+                        elif gs:
+                            problems.append("in the producer %s a cluster is pushed only under %s: a test case without a cluster shifts every later pair"
+                                            % (P.path, local.show(gs[0]["origin"])[:60]))
                 else:
                     bad, unk, src = _chain_verdict(ret)
                     if bad:
